@@ -407,39 +407,59 @@ Proof. induction l as [|x r IH]; simpl; [reflexivity|]. rewrite IH. reflexivity.
 
 Lemma union_supports_canonical l : Forall canonical l -> canonical (union_supports l).
 Proof.
-  intros H. destruct l as [|a [|b [|c r]]]; simpl.
+  intros H. destruct l as [|a [|b r]].
   - exact I.
   - inversion H; assumption.
-  - apply mk_iset_pairs_canonical.
-  - apply mk_iset_pairs_canonical.
+  - change (canonical (mk_iset_pairs (k_union_n (concat (a :: b :: r))))). apply mk_iset_pairs_canonical.
 Qed.
 
-(* the union: exact for three members or more (n-ary kernel), and for two members at every instant
-   farther than 1 us from the endpoints (the constructor trims where the two supports touch) *)
-Theorem union_supports_mem l x : Forall canonical l -> farl x l ->
+(* the union is EXACT whatever the number of members (as repaired: the n-ary kernel joins the supports
+   that touch; one member keeps its own support) *)
+Theorem union_supports_mem_all l x : Forall canonical l ->
   mem x (union_supports l) = existsb (mem x) l.
 Proof.
-  intros H Hf. destruct l as [|a [|b [|c r]]].
+  intros H. destruct l as [|a [|b r]].
   - reflexivity.
   - simpl. rewrite orb_false_r. reflexivity.
-  - inversion H as [|? ? Ha H']; subst. inversion H' as [|? ? Hb _]; subst.
-    cbn [union_supports existsb]. rewrite orb_false_r.
-    apply (wrapper_union_mem a b x Ha Hb).
-    intros p [Hp|Hp]; [apply (Hf a p)|apply (Hf b p)]; simpl; auto.
-  - set (l := a :: b :: c :: r) in *.
+  - set (l := a :: b :: r) in *.
     assert (E : union_supports l = mk_iset_pairs (k_union_n (concat l))) by reflexivity.
     rewrite E. rewrite mk_iset_canonical_id by (apply union_n_canonical, concat_proper; exact H).
     rewrite union_n_mem by (apply concat_proper; exact H). apply mem_concat.
 Qed.
 
+(* the two statements that were all one could say before the repair (kept: they follow) *)
+Theorem union_supports_mem l x : Forall canonical l -> farl x l ->
+  mem x (union_supports l) = existsb (mem x) l.
+Proof. intros H _. apply union_supports_mem_all. exact H. Qed.
+
 Theorem union_supports_mem_exact l x : Forall canonical l -> (3 <= length l)%nat ->
   mem x (union_supports l) = existsb (mem x) l.
+Proof. intros H _. apply union_supports_mem_all. exact H. Qed.
+
+(* _union_intervals as it was: the same function except on exactly two sets, where it was exact only
+   at the instants farther than 1 us from the endpoints ... *)
+Lemma union_supports_orig_other l : length l <> 2%nat -> union_supports_orig l = union_supports l.
+Proof. destruct l as [|a [|b [|c r]]]; simpl; intros H; try reflexivity. exfalso. apply H. reflexivity. Qed.
+
+Theorem union_supports_orig_mem a b x : canonical a -> canonical b -> farl x [a; b] ->
+  mem x (union_supports_orig [a; b]) = mem x a || mem x b.
 Proof.
-  intros H Hl. destruct l as [|a [|b [|c r]]]; simpl in Hl; try lia.
-  set (l := a :: b :: c :: r) in *.
-  assert (E : union_supports l = mk_iset_pairs (k_union_n (concat l))) by reflexivity.
-  rewrite E. rewrite mk_iset_canonical_id by (apply union_n_canonical, concat_proper; exact H).
-  rewrite union_n_mem by (apply concat_proper; exact H). apply mem_concat.
+  intros Ha Hb Hf. cbn [union_supports_orig].
+  apply (wrapper_union_mem a b x Ha Hb).
+  intros p [Hp|Hp]; [apply (Hf a p)|apply (Hf b p)]; simpl; auto.
+Qed.
+
+(* ... and NOT exact: the supports [0, 4 ms] and [4 ms, 8 ms] (ticks = ns) gave [0, 3.999 ms], [4 ms, 8 ms],
+   so the instant 3.9995 ms of the first support was outside the group's support (and a sample there
+   was dropped from the first member); a support of 0.5 us that touches the next one disappeared *)
+Theorem union_supports_orig_refuted :
+  exists a b x, canonical a /\ canonical b /\ mem x a = true
+    /\ mem x (union_supports_orig [a; b]) = false /\ mem x (union_supports [a; b]) = true
+    /\ m_t (ts_restrict ([x], a) (union_supports_orig [a; b])) = []
+    /\ m_t (ts_restrict ([x], a) (union_supports [a; b])) = [x].
+Proof.
+  exists [(0, 4000000)], [(4000000, 8000000)], 3999500.
+  split; [simpl; lia|]. split; [simpl; lia|]. repeat split; vm_compute; reflexivity.
 Qed.
 
 Definition raw_wf (sup : option iset) (r : rawmember) : Prop :=
@@ -505,6 +525,31 @@ Proof.
   - intros x Hf. rewrite <- Eu, (union_supports_mem _ x Hcan Hf), existsb_map'. reflexivity.
   - intros Hl x. rewrite <- Eu, (union_supports_mem_exact _ x Hcan), existsb_map'; [reflexivity|].
     rewrite map_length. exact Hl.
+Qed.
+
+(* the statement's clause as it reads: without a supplied support, the group's support is the union of
+   the members' supports, at EVERY instant and for any number of members *)
+Theorem group_support_union_exact data bypass ht g :
+  mk_group data None bypass ht = Some g ->
+  Forall (fun d => raw_wf None (snd (snd d))) data ->
+  exists es, supplied data None es
+    /\ g_sup g <> [] /\ canonical (g_sup g)
+    /\ forall x, mem x (g_sup g) = existsb (fun e => mem x (m_sup (e_mem e))) es.
+Proof.
+  intros H Hd. destruct (mk_group_inv _ _ _ _ _ H) as (kd & s & Hk & Hn & Hs & ->).
+  set (es := sort_entries (map (conv_entry None) kd)) in *.
+  assert (Hsup : supplied data None es) by (exists kd; split; [exact Hk|reflexivity]).
+  pose proof (supplied_wf data None es Hsup Hd I) as Hwf.
+  assert (Hcan : Forall canonical (map (fun e => m_sup (e_mem e)) es)).
+  { apply Forall_forall. intros A HA. apply in_map_iff in HA. destruct HA as (e & <- & He).
+    rewrite Forall_forall in Hwf. apply (Hwf e He). }
+  exists es. split; [exact Hsup|].
+  unfold chosen_support in Hs. unfold g_sup. cbn [fst snd].
+  destruct (union_supports (map (fun e => m_sup (e_mem e)) es)) as [|I0 u] eqn:Eu; [discriminate|].
+  inversion Hs; subst s. clear Hs.
+  split; [discriminate|].
+  split; [rewrite <- Eu; apply union_supports_canonical; exact Hcan|].
+  intros x. rewrite <- Eu, (union_supports_mem_all _ x Hcan), existsb_map'. reflexivity.
 Qed.
 
 (* ================================================================== *)
@@ -969,29 +1014,29 @@ Proof. intros H Hn. unfold g_get. destruct (b <? a) eqn:E; [|lia]. destruct (g_e
 (* ================================================================== *)
 (* 10. merge_group                                                      *)
 
-Lemma merge_group_gen_inv strict gs ri rs im g' :
-  (2 <= length gs)%nat -> merge_group_gen strict gs ri rs im = Some g' ->
+Lemma merge_group_gen_inv strict lax gs ri rs im g' :
+  (2 <= length gs)%nat -> merge_group_gen strict lax gs ri rs im = Some g' ->
   exists g1 rest, gs = g1 :: rest
     /\ (im = true \/ Forall (fun g => g_hastag g = g_hastag g1) rest)
     /\ (ri = true \/ disjoint_keys (g_keys g1) rest = true)
-    /\ (rs = true \/ Forall (fun g => sup_same (g_sup g1) (g_sup g) = true) rest)
+    /\ (rs = true \/ Forall (fun g => (if lax then sup_same_orig else sup_same) (g_sup g1) (g_sup g) = true) rest)
     /\ (strict = false \/ im = true \/ incr (map e_key (merge_items gs ri)))
     /\ regroup (merge_items gs ri) (if rs then None else Some (g_sup g1)) false (if im then false else g_hastag g1) = Some g'.
 Proof.
   intros Hl H. destruct gs as [|g1 [|g2 rest]]; simpl in Hl; try lia.
   exists g1, (g2 :: rest). split; [reflexivity|].
   set (gs := g1 :: g2 :: rest) in *. set (rs' := g2 :: rest) in *.
-  assert (E : merge_group_gen strict gs ri rs im =
+  assert (E : merge_group_gen strict lax gs ri rs im =
     if (im || forallb (fun g => Bool.eqb (g_hastag g) (g_hastag g1)) rs')
        && (ri || disjoint_keys (g_keys g1) rs')
-       && (rs || forallb (fun g => sup_same (g_sup g1) (g_sup g)) rs')
+       && (rs || forallb (fun g => (if lax then sup_same_orig else sup_same) (g_sup g1) (g_sup g)) rs')
     then if strict && negb im && negb (incrb (map e_key (merge_items gs ri))) then None
          else regroup (merge_items gs ri) (if rs then None else Some (g_sup g1)) false (if im then false else g_hastag g1)
     else None) by reflexivity.
   rewrite E in H. clear E.
   destruct ((im || forallb (fun g => Bool.eqb (g_hastag g) (g_hastag g1)) rs')
             && (ri || disjoint_keys (g_keys g1) rs')
-            && (rs || forallb (fun g => sup_same (g_sup g1) (g_sup g)) rs')) eqn:E; [|discriminate].
+            && (rs || forallb (fun g => (if lax then sup_same_orig else sup_same) (g_sup g1) (g_sup g)) rs')) eqn:E; [|discriminate].
   apply andb_true_iff in E. destruct E as [E E3]. apply andb_true_iff in E. destruct E as [E1 E2].
   destruct (strict && negb im && negb (incrb (map e_key (merge_items gs ri)))) eqn:E4; [discriminate|].
   split.
@@ -1014,7 +1059,7 @@ Lemma merge_group_inv gs ri rs im g' :
     /\ (rs = true \/ Forall (fun g => sup_same (g_sup g1) (g_sup g) = true) rest)
     /\ regroup (merge_items gs ri) (if rs then None else Some (g_sup g1)) false (if im then false else g_hastag g1) = Some g'.
 Proof.
-  intros Hl H. destruct (merge_group_gen_inv false gs ri rs im g' Hl H) as (g1 & rest & E & H1 & H2 & H3 & _ & H5).
+  intros Hl H. destruct (merge_group_gen_inv false false gs ri rs im g' Hl H) as (g1 & rest & E & H1 & H2 & H3 & _ & H5).
   exists g1, rest. auto.
 Qed.
 
@@ -1106,6 +1151,85 @@ Proof.
   - intros (e & He & ->). apply in_flat_map in He. destruct He as (g & Hg & He).
     exists g. rewrite (Hid g e Hg He). auto.
   - intros (g & Hg & He). exists e'. split; [apply in_flat_map; eauto|]. symmetry. eapply Hid; eassumption.
+Qed.
+
+Lemma iset_eqb_eq a : forall b, iset_eqb a b = true -> a = b.
+Proof.
+  induction a as [|[s e] r IH]; intros [|[s' e'] r'] H; simpl in H; try discriminate; [reflexivity|].
+  apply andb_true_iff in H. destruct H as [H H3]. apply andb_true_iff in H. destruct H as [H1 H2].
+  apply Z.eqb_eq in H1, H2. subst. f_equal. apply IH. exact H3.
+Qed.
+
+(* the statement's clause as it reads, time support kept: whatever merge_group accepts (as repaired, it
+   accepts only groups that carry the same support), every member of every group is in the result,
+   untouched, under its key, and nothing else is *)
+Theorem merge_group_preserves_exact gs im g' :
+  (2 <= length gs)%nat -> Forall WFg gs -> Forall Rg gs ->
+  merge_group gs false false im = Some g' ->
+  incr (g_keys g') /\ Forall (fun g => g_sup g = g_sup g') gs
+  /\ (forall e, In e (g_entries g') <-> exists g, In g gs /\ In e (g_entries g)).
+Proof.
+  intros Hl HW HR H.
+  destruct (merge_group_inv _ _ _ _ _ Hl H) as (g1 & rest & E & _ & _ & [Hf|Hs] & _); [discriminate|].
+  assert (HS : Forall (fun g => g_sup g = g_sup (hd g' gs)) gs).
+  { subst gs. cbn [hd]. constructor; [reflexivity|]. eapply Forall_impl'; [|exact Hs].
+    intros g Hg. symmetry. apply iset_eqb_eq. exact Hg. }
+  destruct (merge_group_preserves gs im g' Hl HW HR HS H) as (Hinc & S & Hin).
+  split; [exact Hinc|]. split; [|exact Hin].
+  eapply Forall_impl'; [|exact HS]. intros g Hg. rewrite S. exact Hg.
+Qed.
+
+(* ... and with the time support reset (to the union of the members' supports): the timestamps of every
+   member are preserved under its key (the member now carries the new support) *)
+Theorem merge_group_reset_preserves gs ri im g' :
+  (2 <= length gs)%nat -> Forall WFg gs -> Forall Rg gs ->
+  merge_group gs ri true im = Some g' ->
+  (forall x, mem x (g_sup g') = existsb (fun e => mem x (m_sup (e_mem e))) (merge_items gs ri))
+  /\ (forall e', In e' (g_entries g') <->
+                 exists e, In e (merge_items gs ri) /\ e' = restrict_entry (g_sup g') e)
+  /\ (forall e, In e (merge_items gs ri) -> m_t (e_mem (restrict_entry (g_sup g') e)) = m_t (e_mem e)).
+Proof.
+  intros Hl HW HR H.
+  destruct (merge_group_spec gs ri true im g' Hl HW H) as (W & _ & _ & S & Hin & _).
+  destruct (S eq_refl) as [Es _]. clear S.
+  assert (Hwf0 : Forall (fun e => wf_member (e_mem e)) (flat_map g_entries gs)).
+  { apply Forall_flat_map. eapply Forall_impl'; [|exact HW]. intros g (_ & _ & Hg). exact Hg. }
+  assert (Hwf : Forall (fun e => wf_member (e_mem e)) (merge_items gs ri)).
+  { unfold merge_items. destruct ri; [apply renumber_wf|]; exact Hwf0. }
+  assert (Hperm : forall e, In e (sort_entries (merge_items gs ri)) <-> In e (merge_items gs ri)).
+  { intros e. split; apply Permutation_in; [apply sort_entries_perm|apply Permutation_sym, sort_entries_perm]. }
+  assert (Hcan : Forall canonical (map (fun e => m_sup (e_mem e)) (sort_entries (merge_items gs ri)))).
+  { apply Forall_forall. intros A HA. apply in_map_iff in HA. destruct HA as (e & <- & He).
+    rewrite Forall_forall in Hwf. apply (Hwf e). apply Hperm. exact He. }
+  assert (Hmem : forall x, mem x (g_sup g') = existsb (fun e => mem x (m_sup (e_mem e))) (merge_items gs ri)).
+  { intros x. rewrite Es, (union_supports_mem_all _ x Hcan), existsb_map'.
+    apply Bool.eq_iff_eq_true. rewrite !existsb_exists. split; intros (e & He & Hx); exists e; (split; [apply Hperm; exact He|exact Hx]). }
+  split; [exact Hmem|]. split; [exact Hin|].
+  (* every sample of a member lies in the member's own support *)
+  assert (Hown0 : Forall (fun e => Forall (fun x => mem x (m_sup (e_mem e)) = true) (m_t (e_mem e))) (flat_map g_entries gs)).
+  { apply Forall_flat_map. rewrite Forall_forall in HR. apply Forall_forall. intros g Hg.
+    specialize (HR g Hg). unfold Rg in HR. eapply Forall_impl'; [|exact HR].
+    intros e (Hw & Hn). unfold within in Hw. unfold normal in Hn.
+    destruct (m_t (e_mem e)) as [|t0 tr] eqn:Et; [constructor|]. rewrite Hn. exact Hw. }
+  assert (Hown : Forall (fun e => Forall (fun x => mem x (m_sup (e_mem e)) = true) (m_t (e_mem e))) (merge_items gs ri)).
+  { unfold merge_items. destruct ri; [|exact Hown0].
+    destruct (renumber_spec (flat_map g_entries gs)) as [E _].
+    assert (G : forall l l' : list entry, map (fun e => snd e) l = map (fun e => snd e) l' ->
+                Forall (fun e => Forall (fun x => mem x (m_sup (e_mem e)) = true) (m_t (e_mem e))) l' ->
+                Forall (fun e => Forall (fun x => mem x (m_sup (e_mem e)) = true) (m_t (e_mem e))) l).
+    { induction l as [|a r IH]; intros [|b q] Em Hq; simpl in Em; try discriminate; [constructor|].
+      inversion Em. inversion Hq; subst. constructor; [|eapply IH; eassumption].
+      unfold e_mem in *. replace (snd (snd a)) with (snd (snd b)) by congruence. assumption. }
+    eapply G; eassumption. }
+  intros e He. destruct W as (_ & Hc & _).
+  rewrite Forall_forall in Hwf, Hown.
+  unfold restrict_entry, e_mem at 1. cbn [snd].
+  rewrite ts_restrict_t; [|apply (Hwf e He)|exact Hc].
+  specialize (Hown e He). induction (m_t (e_mem e)) as [|x r IH]; [reflexivity|].
+  inversion Hown; subst. simpl.
+  assert (Hx : mem x (g_sup g') = true).
+  { rewrite Hmem. apply existsb_exists. exists e. split; assumption. }
+  rewrite Hx. f_equal. apply IH. assumption.
 Qed.
 
 (* ================================================================== *)
@@ -1537,7 +1661,7 @@ Proof.
 Qed.
 
 (* ================================================================== *)
-(* 14. merge_group before the repair: with the metadata kept and the index not reset, groups whose keys
+(* 14. merge_group before the first repair: with the metadata kept and the index not reset, groups whose keys
    do not already increase along the concatenation could not be merged; the repaired function merges
    any groups with pairwise distinct keys                                                          *)
 
@@ -1560,6 +1684,32 @@ Proof.
   split; [exact W1|]. split; [exact R1|]. split; [exact W2|]. split; [exact R2|].
   split; [reflexivity|]. split; [simpl; intros k [<-|[]] [H|[]]; discriminate|].
   split; [vm_compute; reflexivity|]. repeat split; vm_compute; discriminate.
+Qed.
+
+(* merge_group before the second repair: an empty support compared equal to any one-interval support,
+   so a group with an empty support, given first, was merged with a group on [0, 12 us] and its empty
+   support installed on every member: the three timestamps of member 1 were lost.  The repaired
+   function refuses (ValueError, as documented for groups whose supports differ). *)
+Definition wit3 : group := ([(0, (0, ([], [])))], ([], false)).
+Definition wit4 : group := ([(1, (0, ([1000; 2000; 3000], [(0, 12000)])))], ([(0, 12000)], false)).
+
+Theorem merge_lax_refuted :
+  exists g1 g2, WFg g1 /\ Rg g1 /\ WFg g2 /\ Rg g2 /\ g_sup g1 <> g_sup g2
+    /\ (exists e, In e (g_entries g2) /\ m_t (e_mem e) <> [])
+    /\ (exists g', merge_group_lax [g1; g2] false false true = Some g'
+                   /\ g_keys g' = [0; 1] /\ Forall (fun e => m_t (e_mem e) = []) (g_entries g'))
+    /\ merge_group [g1; g2] false false true = None.
+Proof.
+  exists wit3, wit4.
+  assert (W1 : WFg wit3) by (unfold WFg, wit3; simpl; repeat split; try lia; repeat constructor; simpl; lia).
+  assert (W2 : WFg wit4) by (unfold WFg, wit4; simpl; repeat split; try lia; repeat constructor; simpl; lia).
+  assert (R1 : Rg wit3) by (unfold Rg, wit3, within, normal; simpl; repeat constructor).
+  assert (R2 : Rg wit4) by (unfold Rg, wit4, within, normal; simpl; repeat constructor).
+  split; [exact W1|]. split; [exact R1|]. split; [exact W2|]. split; [exact R2|].
+  split; [discriminate|].
+  split; [eexists; split; [left; reflexivity|discriminate]|].
+  split; [|vm_compute; reflexivity].
+  eexists. split; [vm_compute; reflexivity|]. split; [reflexivity|]. repeat constructor.
 Qed.
 
 (* the repaired merge of two groups is defined as soon as the keys are distinct, the support shared
@@ -1586,7 +1736,7 @@ Proof.
     exfalso. clear -Hnd Hk1 Hk2. induction (g_keys g1) as [|x r IH]; [contradiction|].
     simpl in Hnd. inversion Hnd; subst. destruct Hk1 as [->|Hk1]; [apply H1; apply in_or_app; auto|auto]. }
   assert (E3 : forallb (fun g => sup_same (g_sup g1) (g_sup g)) [g2] = true).
-  { simpl. rewrite andb_true_r, <- Hs. unfold sup_same. apply orb_true_iff. left.
+  { simpl. rewrite andb_true_r, <- Hs. unfold sup_same.
     clear. induction (g_sup g1) as [|[s e] r IH]; simpl; [reflexivity|]. rewrite !Z.eqb_refl, IH. reflexivity. }
   rewrite E1, E2, E3. cbn [orb andb].
   eexists. apply regroup_some; [|reflexivity]. rewrite Hk. exact Hnd.
